@@ -25,7 +25,7 @@ func TestCheck(t *testing.T) {
 	r := ev.Start("C08")
 	defer r.Finish()
 	r.SetRule("case = (base history b, shutdown step k, loop mode): the driver picks, from a PRNG derived from (seed,b), " +
-		"scheduler replies (execute new/same digest, idle, no change, RPC error, invalid timestamp, unknown state, invalid execute request), " +
+		"scheduler replies (execute new/same digest with all optional fields varied: w3c_trace_context empty/one/several/malformed entries, auxiliary_metadata, instance_name_suffix, digest function, queued_timestamp, action timeout; idle, no change, RPC error, invalid timestamp, unknown state, invalid execute request), " +
 		"executor progress (updates, completion with OK/non-OK status, reaction to cancellation incl. >10 late updates), readiness failures, " +
 		"virtual clock advances and timer firings; shutdown (context cancellation) is injected before step k wherever the client is parked then (between Runs, in Synchronize, in the timer/update select, while the executor is gated) or, for half of the variants, from inside Run itself (in the CheckReadiness callback or right after the wait timer was created). mirror mode = LaunchWorkerThread's loop " +
 		"with the error back-off sleep replaced by a gate; real mode = builder.LaunchWorkerThread itself under program.RunLocal. " +
@@ -58,6 +58,8 @@ func TestCheck(t *testing.T) {
 	r.Floor("terminated-after-bound-expired", 3)
 	r.Floor("non-ok-completion-reported", 5)
 	r.Floor("real-loop-cases", 3)
+	r.Floor("execute-with-trace-context", 20)
+	r.Floor("preempted-action-with-trace-context", 10)
 	// Shutdown beginning strictly inside one Run iteration.
 	r.Floor("shutdown-inside-run-at-timer", 5)
 	r.Floor("shutdown-inside-run-at-readiness", 5)
